@@ -1,6 +1,8 @@
 #!/bin/sh
 # Regenerates lean/Mtv/Gen/Schema{Api,Mt}.lean (the shipped TL schemas as Lean data) and
-# lean/Mtv/Gen/Methods.lean (facts about the generated client methods and hand-written wrappers).
+# lean/Mtv/Gen/Methods.lean (facts about the generated client methods and hand-written wrappers),
+# lean/Mtv/Gen/Registry.lean (tools/regen_registry.sh) and lean/Mtv/Gen/RegistryFields.lean (every field of
+# every registered struct with its tag as written: harness/cmd/c13fields, built against the same tree).
 set -e
 cd "$(dirname "$0")/.."
 export GOFLAGS=-mod=mod GOPROXY=off GOSUMDB=off GOTOOLCHAIN=local CGO_ENABLED=0
@@ -10,4 +12,12 @@ python3 tools/tl2lean.py Api "$REPO/schemes/api_latest.tl" lean/Mtv/Gen/SchemaAp
 python3 tools/tl2lean.py Mt "$REPO/schemes/mtproto.tl" lean/Mtv/Gen/SchemaMt.lean
 (cd harness && go build -o ../.build/c13facts ./cmd/c13facts)
 .build/c13facts "$REPO" lean/Mtv/Gen/Methods.lean
-tools/regen_registry.sh && python3 tools/gen_c13.py
+tools/regen_registry.sh
+if [ "$REPO" != "/repo" ]; then
+  # .build/regdump.go.mod (replace => $REPO) was written by regen_registry.sh just now
+  (cd harness && go build -tags verif -modfile ../.build/regdump.go.mod -o ../.build/c13fields ./cmd/c13fields)
+else
+  (cd harness && go build -tags verif -o ../.build/c13fields ./cmd/c13fields)
+fi
+.build/c13fields lean/Mtv/Gen/RegistryFields.lean
+python3 tools/gen_c13.py
